@@ -47,6 +47,45 @@ class RecSock:
         self.buf += b
 
 
+class ShortSock:
+    """Sending side: a transport whose `send` / `sendmsg` accept at most caps[i]+1 bytes per call (everything once the
+    list is exhausted) - legal behaviour of a socket with a timeout, a non-blocking socket or a send interrupted by a
+    signal. `sendall` is the contractual loop over `send`. Everything accepted is recorded in `wire`."""
+
+    def __init__(self, caps):
+        self.caps = list(caps)
+        self.wire = b''
+        self.calls = 0
+
+    def _accept(self, data):
+        self.calls += 1
+        if self.calls > 100000:
+            raise Spin()
+        k = min(len(data), self.caps.pop(0) + 1) if self.caps else len(data)
+        self.wire += bytes(data[:k])
+        return k
+
+    def send(self, data, flags=0):
+        return self._accept(bytes(data))
+
+    def sendall(self, data, flags=0):
+        data = bytes(data)
+        while data:
+            data = data[self._accept(data):]
+
+    def sendmsg(self, buffers, ancdata=(), flags=0, address=None):
+        return self._accept(b''.join(bytes(b) for b in buffers))
+
+    def sendto(self, data, *a):
+        return self._accept(bytes(data))
+
+    def gettimeout(self):
+        return None
+
+    def fileno(self):
+        return -1
+
+
 def run_impl(remote, data, cuts, k, rst=False):
     """Returns (list of canonical results, total recv calls)."""
     s = ScriptSock(data, cuts, rst)
@@ -204,6 +243,89 @@ def probe_socketpair(ctx, remote):
         ctx.fail('socketpair-truncation', 'real socketpair: truncated stream not reported as closed / EOF not sticky', {'got': repr(got)[:300], 'eofs': repr(eofs)})
 
 
+def send_cases(ctx, remote, remote_pickle):
+    """the sending side: the real send_msg over a short-writing transport vs Framing.sendMsgs; then the receiver"""
+    rng = ctx.rng
+    T = ctx.thorough
+    small = [None, 0, b'', (), 'a', [1, 2], {'k': None}]
+    cases = []
+    for _ in range(150 if not T else 1500):
+        msgs = [rng.choice(small + [bytes(rng.randrange(256) for _ in range(rng.choice([1, 5, 300, 5000])))]) for _ in range(rng.randint(1, 4))]
+        caps = [rng.choice([0, 0, 1, 2, 3, 4, 5, 7, 100, 4000]) for _ in range(rng.randrange(0, 40))]
+        cases.append((msgs, caps))
+    # every single short first write of a small frame, and a big frame written in small pieces
+    for c in range(0, 12):
+        cases.append(([(1, 'x', None), 0], [c]))
+    cases.append(([b'z' * 200000, None], [rng.choice([0, 3, 4, 1000, 65535]) for _ in range(30)]))
+    bodies = [[remote_pickle.dumps(m) for m in msgs] for msgs, _ in cases]
+    lines = ['c10send %s %s' % (';'.join(b.hex() or '-' for b in bs), ','.join(map(str, caps)) or '-') for bs, (_, caps) in zip(bodies, cases)]
+    model = ctx.model(lines)
+    for i, (msgs, caps) in enumerate(cases):
+        s = ShortSock(caps)
+        err = None
+        try:
+            for m in msgs:
+                remote.send_msg(s, m)
+        except Spin:
+            err = 'spin'
+        except Exception as e:  # noqa
+            err = type(e).__name__
+        ctx.count('send-short')
+        ctx.case(('send', i, tuple(caps[:6]), len(s.wire)), bool(caps),
+                 sample={'kind': 'send-short', 'messages': len(msgs), 'caps': caps[:8], 'wire_len': len(s.wire)} if i % 97 == 0 else None)
+        expect = b''.join(struct.pack('!I', len(b)) + b for b in bodies[i])
+        desc = {'kind': 'send-short', 'msgs_repr': repr(msgs)[:300], 'bodies_hex': [b.hex()[:2000] for b in bodies[i]], 'caps': caps}
+        if err is not None:
+            ctx.fail(f'send-short:{err}', f'send_msg over a short-writing transport ended with {err}', desc)
+            continue
+        if s.wire != expect:
+            # what does the receiver make of it?
+            got, _ = run_impl(remote, s.wire, [], len(msgs) + 1)
+            sym = got[-1][0] if got else 'none'
+            ctx.fail(f'send-short:{sym}', f'send_msg over a transport that writes short put {len(s.wire)} bytes on the wire instead of the '
+                     f'{len(expect)} bytes of the frames; the receiver reads {repr(got)[:160]}', desc)
+        if model is not None:
+            ctx.cov['traces_validated_against_impl'] += 1
+            mw = b'' if model[i] == '-' else bytes.fromhex(model[i])
+            if mw != s.wire:
+                ctx.broke('correspondence', 'Framing.sendMsgs vs send_msg', f'caps={caps[:20]} model wire {len(mw)} bytes, impl wire {len(s.wire)} bytes')
+
+
+def probe_short_write_socket(ctx, remote):
+    """a real socketpair whose sending side has a timeout: short writes happen when the peer reads slowly"""
+    a, b = socket.socketpair()
+    a.settimeout(5)
+    msgs = [b'q' * 3000000, {'after': 1}]
+    got = []
+
+    def reader():
+        import time
+        time.sleep(0.3)
+        try:
+            for _ in range(2):
+                got.append(remote.recv_msg(b))
+        except Exception as e:  # noqa
+            got.append(('error', type(e).__name__))
+
+    def writer():
+        try:
+            for m in msgs:
+                remote.send_msg(a, m)
+        except Exception as e:  # noqa
+            got.append(('send-error', type(e).__name__))
+        finally:
+            a.close()
+    t = threading.Thread(target=writer, daemon=True)
+    t.start()
+    st, _ = watchdog(reader, 30)
+    t.join(5)
+    b.close()
+    ctx.case(('socketpair-send-timeout',), sample={'probe': 'socketpair-send-timeout', 'ok': got == msgs})
+    if st == 'hang' or got != msgs:
+        ctx.fail('socketpair-send:' + ('hang' if st == 'hang' else 'wrong'), 'real socketpair with a send timeout: the messages written by send_msg are not read back '
+                 f'({"receiver blocked" if st == "hang" else repr(got)[:200]})', {'probe': 'socketpair-send-timeout'})
+
+
 def main(ctx: Ctx):
     ctx.assumptions += [
         'E-F1: recv() on a stream socket returns b"" forever once the peer has closed (probed on a socketpair each run)',
@@ -215,6 +337,7 @@ def main(ctx: Ctx):
                        'non-trivial = the stream is split into >= 2 reads or truncated; distinct by (stream hash, cuts, calls)')
     lean_ok = ctx.lean()
     from pyworkers import remote, remote_pickle
+    send_cases(ctx, remote, remote_pickle)
     cases = list(gen_cases(ctx, remote))
     lines = ['c10 %s %s %d' % (d.hex() or '-', ','.join(map(str, c)) or '-', k) for (_, _, d, c, k) in cases]
     model_out = ctx.model(lines)
@@ -267,10 +390,30 @@ def main(ctx: Ctx):
         if impl != [('closed',)]:
             ctx.fail('rst:' + (impl[-1][0] if impl else 'none'), 'ConnectionResetError during recv not mapped to ConnectionClosedError', {'offset': o, 'impl': repr(impl)})
     probe_socketpair(ctx, remote)
+    probe_short_write_socket(ctx, remote)
     ctx.cov['exhaustive'] = False
 
 
 def replay(case):
-    from pyworkers import remote
+    from pyworkers import remote, remote_pickle
+    if case.get('kind') == 'send-short':
+        msgs = [remote_pickle.loads(bytes.fromhex(h)) for h in case['bodies_hex']]
+        s = ShortSock(case['caps'])
+        for m in msgs:
+            remote.send_msg(s, m)
+        expect = b''.join(struct.pack('!I', len(bytes.fromhex(h))) + bytes.fromhex(h) for h in case['bodies_hex'])
+        print('wire   :', s.wire.hex()[:400], f'({len(s.wire)} bytes)')
+        print('frames :', expect.hex()[:400], f'({len(expect)} bytes)')
+        print('receiver reads:', run_impl(remote, s.wire, [], len(msgs) + 1)[0])
+        return
+    if case.get('probe'):
+        class C:   # minimal context for a probe
+            thorough = False
+            import random as _r
+            rng = _r.Random(0)
+            def case(self, *a, **k): pass
+            def fail(self, sig, what, desc): print('FAIL', sig, what)
+        {'socketpair-send-timeout': probe_short_write_socket, 'socketpair': probe_socketpair}[case['probe']](C(), remote)
+        return
     data = bytes.fromhex(case['stream_hex'])
     print(run_impl(remote, data, case['cuts'], case.get('calls', 3)))
